@@ -1,7 +1,7 @@
 //go:build verif
 
 // Package ws generates the small std-free workspace used by the history checks (C04, C05-D):
-// a module example.com/m with packages dep <- mid <- tgt whose content is a function of a bit
+// a module example.com/m with packages base <- dep <- mid <- {tgt, top} whose content is a function of a bit
 // vector (source edits that flip exported facts, configuration files, build-tagged files),
 // and runs the real staticcheck binary on it with a given flag vector and cache directory.
 package ws
@@ -25,6 +25,7 @@ const (
 	RootConf               // staticcheck.conf at the module root: checks = ["all", "-ST1000"]
 	TgtConf                // tgt/staticcheck.conf: initialisms = [] (ST1003 for GetId disappears)
 	BadConf                // tgt/staticcheck.conf is malformed (config error)
+	BaseDepr               // base.T.M (three import levels below tgt, reached through mid only) is deprecated
 	NumWSBits  = iota
 )
 
@@ -38,7 +39,7 @@ const (
 	NumBits = NumWSBits + iota
 )
 
-var BitNames = []string{"tgt-edit", "dep-deprecated", "dep-impure", "dep-maybenil", "root-conf", "tgt-conf", "bad-conf", "go1.20", "tags-x", "checks", "windows", "tests"}
+var BitNames = []string{"tgt-edit", "dep-deprecated", "dep-impure", "dep-maybenil", "root-conf", "tgt-conf", "bad-conf", "base-deprecated", "go1.20", "tags-x", "checks", "windows", "tests"}
 
 func Describe(p int) string {
 	var s []string
@@ -71,13 +72,25 @@ func Files(p int) map[string]string {
 	if p&MaybeNil != 0 {
 		iface = "func Iface() any {\n\tif Sink > 0 {\n\t\treturn nil\n\t}\n\treturn &T{}\n}"
 	}
-	f["dep/dep.go"] = "// Package dep is the dependency.\npackage dep\n\n// T is a type.\ntype T struct{ X int }\n\n// Old is old.\n" + depr + "func Old() int { return 1 }\n\n// New is new.\nfunc New() int { return 2 }\n\n// Sink is a global.\nvar Sink int\n\n// Pure doubles.\n" + pure + "\n\n// Iface returns an interface.\n" + iface + "\n"
-	f["mid/mid.go"] = "// Package mid sits in the middle.\npackage mid\n\nimport \"example.com/m/dep\"\n\n// Get forwards dep.Iface.\nfunc Get() any { return dep.Iface() }\n\n// Twice applies dep.Pure twice.\nfunc Twice(x int) int { return dep.Pure(dep.Pure(x)) }\n"
+	f["dep/dep.go"] = "// Package dep is the dependency.\npackage dep\n\nimport \"example.com/m/base\"\n\n// B is base.T under another name.\ntype B = base.T\n\n// NewB makes one.\nfunc NewB() B { return B{} }\n\n// T is a type.\ntype T struct{ X int }\n\n// Old is old.\n" + depr + "func Old() int { return 1 }\n\n// New is new.\nfunc New() int { return 2 }\n\n// Sink is a global.\nvar Sink int\n\n// Pure doubles.\n" + pure + "\n\n// Iface returns an interface.\n" + iface + "\n"
+	// base is three import levels below tgt (tgt -> mid -> dep -> base); tgt reaches base.T.M
+	// through mid.Deep() without importing dep or base. The toggle rewrites a doc line in place,
+	// so base's export data and with it the build ids of dep and mid stay byte-identical: only
+	// the facts flowing up through the vetx files tell the two versions apart.
+	bdepr := "// M is fine: keep using it.\n"
+	if p&BaseDepr != 0 {
+		bdepr = "// Deprecated: do not use M.\n"
+	}
+	f["base/base.go"] = "// Package base is the bottom of the chain.\npackage base\n\n// T is a type.\ntype T struct{}\n\n// M is a method.\n//\n" + bdepr + "func (T) M() int { return 1 }\n"
+	f["mid/mid.go"] = "// Package mid sits in the middle.\npackage mid\n\nimport \"example.com/m/dep\"\n\n// Get forwards dep.Iface.\nfunc Get() any { return dep.Iface() }\n\n// Twice applies dep.Pure twice.\nfunc Twice(x int) int { return dep.Pure(dep.Pure(x)) }\n\n// Deep hands out a value of a type declared three levels down.\nfunc Deep() dep.B { return dep.NewB() }\n"
 	extra := ""
 	if p&TgtEdit != 0 {
 		extra = "\tif b == false {\n\t\tx--\n\t}\n"
 	}
-	f["tgt/tgt.go"] = "package tgt\n\nimport (\n\t\"example.com/m/dep\"\n\t\"example.com/m/mid\"\n)\n\nfunc GetId() int { return dep.Old() }\n\nfunc F(x int, b bool) int {\n\tdep.Pure(x)\n\tmid.Twice(x)\n\tif dep.Iface() == nil {\n\t\treturn 0\n\t}\n\tif mid.Get() == nil {\n\t\treturn 1\n\t}\n\tfor range 3 {\n\t\tx++\n\t}\n\tif b == true {\n\t\treturn x\n\t}\n" + extra + "\treturn dep.New()\n}\n"
+	f["tgt/tgt.go"] = "package tgt\n\nimport (\n\t\"example.com/m/dep\"\n\t\"example.com/m/mid\"\n)\n\nfunc GetId() int { return dep.Old() + mid.Deep().M() }\n\nfunc F(x int, b bool) int {\n\tdep.Pure(x)\n\tmid.Twice(x)\n\tif dep.Iface() == nil {\n\t\treturn 0\n\t}\n\tif mid.Get() == nil {\n\t\treturn 1\n\t}\n\tfor range 3 {\n\t\tx++\n\t}\n\tif b == true {\n\t\treturn x\n\t}\n" + extra + "\treturn dep.New()\n}\n"
+	// top imports mid only: it reaches base.T.M three import levels down (top -> mid -> dep ->
+	// base) and none of its direct imports' package hashes changes when base's doc comment does
+	f["top/top.go"] = "// Package top sits on top of mid.\npackage top\n\nimport \"example.com/m/mid\"\n\n// G calls a method declared three levels down.\nfunc G() int { return mid.Deep().M() }\n"
 	f["tgt/tgt_windows.go"] = "package tgt\n\nfunc onWindows(b bool) bool { return b == false }\n"
 	f["tgt/tgt_x.go"] = "//go:build x\n\npackage tgt\n\nfunc tagged(b bool) bool { return !(b == true) }\n"
 	f["tgt/tgt_test.go"] = "package tgt\n\nimport \"testing\"\n\nfunc TestF(t *testing.T) {\n\tif F(1, true) != 0 == true {\n\t\tt.Fatal()\n\t}\n}\n"
